@@ -260,13 +260,13 @@ var c09RememberProfile = func() *sim.Profile {
 func init() {
 	register(&Check{
 		ID: "C09", Level: "exploration",
-		Rule:  "expire middleware installed; ExpireAfter in {1s(ish),90s,1h,37h}; request sequences of logged-in browsers separated by clock advances from {1s,…,E/2,E-2s,E-1s,E-1ns,E,E+1ns,E+1s,3E}; whitelists of 0/1/3 application keys with values that must survive; sessions created by password, OTP, recover-and-login, TOTP/SMS second step, OAuth2, registration and — in a quarter of the units, where remember.Middleware sits in front of expire.Middleware — by the remember cookie (half-authenticated sessions that idle out with the cookie gone from the browser); expired requests that are themselves logins. The ledger keeps each browser's last authenticated activity (started by ANY login). Oracle per request of a logged-in browser with true gap g: g>E => the downstream probe sees no user and no non-whitelisted key, and the response leaves only whitelisted keys (+flash, + keys this very request put after the wipe); g<=E-1s => served as that user and last_action==now; the 1-second band below E (stamp resolution) is not judged. distinct_nontrivial = distinct (action, E, gap class, whitelist size, session state, login kind, probe ran, uid after) signatures.",
+		Rule:  "expire middleware installed; ExpireAfter in {2s, 90s, 1h, 37h, and values that are no whole number of seconds: 1.5s, 2.5s, 90.5s, 1h+1ns}; request sequences of logged-in browsers separated by clock advances from {1s,…,E/2,E-2s,E-1s,E-1ns,E,E+1ns,E+1s,3E}; whitelists of 0/1/3 application keys with values that must survive; sessions created by password, OTP, recover-and-login, TOTP/SMS second step, OAuth2, registration and — in a quarter of the units, where remember.Middleware sits in front of expire.Middleware — by the remember cookie (half-authenticated sessions that idle out with the cookie gone from the browser); expired requests that are themselves logins. The ledger keeps each browser's last authenticated activity (started by ANY login). Oracle per request of a logged-in browser with true gap g: g>E => the downstream probe sees no user and no non-whitelisted key, and the response leaves only whitelisted keys (+flash, + keys this very request put after the wipe); g<=E-1s => served as that user and last_action==now; the 1-second band below E (stamp resolution) is not judged. distinct_nontrivial = distinct (action, E, gap class, whitelist size, session state, login kind, probe ran, uid after) signatures.",
 		Units: func(t string) int { return tierN(t, 800, 40000) },
 		Run: func(c *RunCtx, unit int) {
 			r := Rng(c.Seed, "C09", unit)
 			cfg := randomCfg(r, "auth")
 			cfg.UseExpire = true
-			cfg.ExpireAfter = pickD(r, 2*time.Second, 90*time.Second, time.Hour, 37*time.Hour)
+			cfg.ExpireAfter = pickD(r, 2*time.Second, 90*time.Second, time.Hour, 37*time.Hour, 1500*time.Millisecond, 2500*time.Millisecond, 90*time.Second+500*time.Millisecond, time.Hour+time.Nanosecond)
 			// incl. application keys whose NAMES contain library key names (uid, twofactor, halfauth)
 			cfg.Whitelist = [][]string{nil, {"app_theme"}, {"app_theme", "app_lang", "app_cart"}, {"app_uid"}, {"app_theme", "app_twofactor_hint", "xhalfauthx"}}[r.Intn(5)]
 			var mods []string
